@@ -13,7 +13,7 @@ use serde_json::{json, Value};
 use std::collections::BTreeSet;
 use std::path::{Path, PathBuf};
 
-pub const FOREIGN: [&str; 13] = [
+pub const FOREIGN: [&str; 19] = [
     "notes.md",
     "types.ts.bak",
     "Types.ts",
@@ -27,9 +27,15 @@ pub const FOREIGN: [&str; 13] = [
     "sub/types.ts",
     "generated/keep.txt",
     "events.d.tsx",
+    "commands.test.ts",
+    "types.spec.ts",
+    "index.mock.ts",
+    "bindings.backup.ts",
+    "schemas.ts.orig",
+    "models.js",
 ];
 /// the subset whose names sit closest to what the tool writes, probes or cleans
-pub const NEAR: [&str; 6] = ["types.ts.bak", "Types.ts", ".write_test", "types.tmp", "sub/types.ts", "mytypes.ts"];
+pub const NEAR: [&str; 9] = ["types.ts.bak", "Types.ts", ".write_test", "types.tmp", "sub/types.ts", "mytypes.ts", "commands.test.ts", "types.spec.ts", "index.mock.ts"];
 
 pub fn is_reserved_name(name: &str) -> bool {
     const R: [&str; 7] = ["types", "commands", "events", "index", "schemas", "models", "bindings"];
